@@ -1,7 +1,6 @@
 package main
 
 import (
-	"verifh/ev"
 	"verifh/pool"
 )
 
@@ -18,7 +17,7 @@ func c07(tier string) int {
 	if tier == "thorough" {
 		depth = 12
 	}
-	run := ev.NewRun("C07", tier, "model_checking")
+	run := newRun("C07", tier, "model_checking")
 	p := pool.New(0)
 	st := bfsPool(run, p, "ops", arg, depth, 0, authFilter(arg.Init, ops))
 	// concurrent part: every interleaving (unbounded preemptions; the scenario is tiny)
